@@ -19,7 +19,7 @@ META = dict(
                        'control.decodeSlice', 'control.decodeStruct', 'bufio.NewReader', '(*bufio.Reader).Peek/ReadString/ReadSlice/fill/collectFragments', '(*strings.Reader).Read',
                        'strings.TrimSpace', 'strings.TrimRightFunc', 'strings.SplitN (model)'],
     stubs=['bytes.IndexByte (position case split)', 'fmt.Errorf (opaque error)', 'reflect (model over the interpreter heap, see engine/symgo/reflectmodel.py)', 'unicode.IsSpace table'],
-    bounds={'quick': 'invariant: every byte string (all 256 values) of length <= 5; documents: 1-2 paragraphs x 1-2 fields, five value shapes (single line, first+continuation, empty first line, " ." empty line, two continuations), LF/CRLF, space/tab continuation marker, final newline or not, 1-2 separator lines, leading blank line, comment lines at start / between fields / inside a continuation / at the end; names 1-2, texts 1-2 symbolic printable characters',
+    bounds={'quick': 'invariant: every byte string (all 256 values) of length <= 5; documents: 1-2 paragraphs x 1-2 fields, five value shapes (single line, first+continuation, empty first line, " ." empty line, two continuations), LF/CRLF, space/tab continuation marker, final newline or not, 1-2 separator lines, leading blank line, comment lines at start / between fields / inside a continuation / at the end, 1-2 trailing blanks (space or tab) on every line; names 1-2, texts 1-2 symbolic printable characters',
             'thorough': 'invariant: length <= 7; documents: texts of 1-3 characters, all two-paragraph combinations'},
     outside_claim=['documents beyond the template bound', 'whitespace-only lines inside a paragraph (not well-formed deb822)'],
     assumptions=['a value is compared on its logical lines: one trailing newline (added by the reader to every folded value) is not significant, an empty first line followed by continuation lines is not a line (the reader\'s documented treatment of Files:-style fields)'])
@@ -69,6 +69,12 @@ def render(paras, opt, sym):
     """paras: [[(name, first, conts)]] -> (document bytes, expected dump)"""
     eol = (13, 10) if opt['crlf'] else (10,)
     mark = (9,) if opt['tab'] else (32,)
+    trail = ()
+    if opt.get('trail'):
+        # trailing blanks on every field and continuation line (the same symbolic space-or-tab byte): to be removed
+        tb = symstr('tb', 1)[0]
+        sym.assume.append(in_set(tb, b' \t'))
+        trail = (tb,) * opt['trail']
     lines = []
     dump = ()
     for _ in range(opt.get('leading', 0)):
@@ -86,12 +92,12 @@ def render(paras, opt, sym):
         for fi, (name, first, conts) in enumerate(fields):
             if fi and opt.get('comment') == 'between':
                 lines.append((35,) + sym.leaf(1, PRN, PRN))
-            lines.append(tuple(name) + (58,) + ((32,) if (first or opt.get('space_after_colon')) else ()) + tuple(first))
+            lines.append(tuple(name) + (58,) + ((32,) if (first or opt.get('space_after_colon')) else ()) + tuple(first) + trail)
             logical = [tuple(first)] if (first or not conts) else []
             for ci, c in enumerate(conts):
                 if ci == 0 and opt.get('comment') == 'inside':
                     lines.append((35,) + sym.leaf(1, PRN, PRN))
-                lines.append(mark + (tuple(c) if c else (46,)))
+                lines.append(mark + (tuple(c) if c else (46,)) + trail)
                 logical.append(tuple(c))
             text = ()
             for k, l in enumerate(logical):
@@ -123,6 +129,8 @@ def templates(tier):
             if tier == 'quick' and len(combo) == 2 and k % 2:
                 continue
             ts.append(dict(paras=[list(combo)], opt=dict(crlf=crlf, tab=tab, final=final), L=1 + (k % L)))
+        for crlf, nt in ((False, 1), (True, 1), (False, 2)):
+            ts.append(dict(paras=[list(combo)], opt=dict(crlf=crlf, tab=False, final=True, trail=nt), L=1))
         for cm in ('start', 'between', 'inside', 'end'):
             if cm == 'between' and len(combo) < 2:
                 continue
